@@ -579,4 +579,125 @@ theorem typeDecl_sound (fuel : Nat) (c : List String) (ts0 ts : List Token) (d :
     · simp [printDeclBody', hn, heq, hk, hlb, hrb, hpre]
     · simp [Decl.shape?, hss, DeclShape'.toOld, DeclShape.erase, Function.comp_def]
 
+/-! ## 6. namespace contents -/
+
+/-- what `content_sound` says about one parser `p` -/
+def ContentSound (p : P Content) : Prop :=
+  ∀ ts c rest, p ts = some (c, rest) → c.shape?.isSome = true →
+    ∃ pre s, ts = pre ++ rest ∧ pre.map (·.tk) = printContent' s ∧ c.shape? = some s.toOld.erase
+
+theorem contents_sound_of (p : P Content) (hp : ContentSound p) (fuel : Nat) (stop : List Token → Bool) (n : Nat)
+    (ts : List Token) (cs : List Content) (rest : List Token) (h : many fuel stop p n ts = some (cs, rest))
+    (hd : (contentsShape? cs).isSome = true) :
+    ∃ pre ss, ts = pre ++ rest ∧ pre.map (·.tk) = printContents' ss ∧
+      contentsShape? cs = some (eraseContents (toOldContents ss)) := by
+  rw [contentsShape?_eq_mapOpt] at hd ⊢
+  obtain ⟨r, hr⟩ := Option.isSome_iff_exists.mp hd
+  obtain ⟨pre, ss, hts, hpre, hss⟩ := many_sound_rel fuel stop p printContent' Content.shape? (fun s => s.toOld.erase)
+    (fun ts a r h hd => hp ts a r h hd) n ts cs rest h (mapOpt_isSome_of hr)
+  refine ⟨pre, ss, hts, by rw [printContents'_eq_flatMap]; exact hpre, ?_⟩
+  rw [hss, toOldContents_eq_map, eraseContents_eq_map, List.map_map]
+  rfl
+
+/-- **namespace contents** (declarations and nested `namespace` blocks) whose types are data types -/
+theorem content_sound (fuel : Nat) : ContentSound (content fuel) := by
+  induction fuel with
+  | zero => intro ts c rest h; simp [content] at h
+  | succ g ih =>
+    intro ts0 c rest h hd
+    rw [content_succ] at h
+    obtain ⟨cs, h1, h2⟩ := comments_sound ts0
+    split at h
+    · next hns =>
+      obtain ⟨nk, hnk, hnkk⟩ := peekKw_inv hns
+      cases hn : nsIdent (comments ts0).2.tail with
+      | none => simp [hn] at h
+      | some y =>
+        obtain ⟨n, ts1⟩ := y
+        obtain ⟨nt, d, hnt, hntk⟩ := nsIdent_inv hn
+        simp only [hn] at h
+        cases hl : kw? "{" ts1 with
+        | none => simp [hl] at h
+        | some ts2 =>
+          obtain ⟨lb, rfl, hlb⟩ := kw?_inv hl
+          simp only [hl] at h
+          cases hm : many g (peekKw "}") (content g) g ts2 with
+          | none => simp [hm] at h
+          | some z =>
+            obtain ⟨children, ts3⟩ := z
+            simp only [hm] at h
+            cases hr : kw? "}" ts3 with
+            | none => simp [hr] at h
+            | some ts4 =>
+              obtain ⟨rb, rfl, hrb⟩ := kw?_inv hr
+              simp only [hr, Option.some.injEq, Prod.mk.injEq] at h
+              obtain ⟨rfl, rfl⟩ := h
+              have hd' : (contentsShape? children).isSome = true := by
+                simpa [Content.shape?] using hd
+              obtain ⟨pre, ss, rfl, hpre, hss⟩ := contents_sound_of (content g) ih g _ g ts2 children _ hm hd'
+              refine ⟨cs ++ nk :: nt :: lb :: (pre ++ [rb]), .ns n d (comments ts0).1 ss, by rw [h1, hnk, hnt]; simp, ?_, ?_⟩
+              · simp [printContent', h2, hnkk, hntk, hlb, hpre, hrb]
+              · simp [Content.shape?, hss, ContentShape'.toOld, ContentShape.erase]
+    · cases ht : typeDecl g (comments ts0).1 ts0 (comments ts0).2 with
+      | none => simp [ht] at h
+      | some y =>
+        obtain ⟨d, r⟩ := y
+        simp only [ht, Option.some.injEq, Prod.mk.injEq] at h
+        obtain ⟨rfl, rfl⟩ := h
+        have hd' : d.shape?.isSome = true := by simpa [Content.shape?] using hd
+        obtain ⟨body, d', hbody, hbk, hc, hs⟩ := typeDecl_sound g _ ts0 _ d r ht hd'
+        refine ⟨cs ++ body, .decl d', by rw [List.append_assoc, ← hbody]; exact h1, ?_, ?_⟩
+        · simp [printContent', printDecl', h2, hbk, hc]
+        · simp [Content.shape?, hs, ContentShape'.toOld, ContentShape.erase]
+
+/-! ## 7. files -/
+
+theorem load_sound (ts : List Token) (l : LoadAt) (r : List Token) (h : load ts = some (l, r)) :
+    ∃ q, ts = q ++ r ∧ q.map (·.tk) = printLoad l.shape := by
+  unfold load at h
+  split at h
+  · next a b r' =>
+    split at h
+    · next s hs =>
+      split at h
+      · next ha =>
+        simp at h; obtain ⟨rfl, rfl⟩ := h
+        exact ⟨[a, b], by simp, by simp [printLoad, LoadAt.shape, hs, eq_of_beq ha]⟩
+      · split at h
+        · next ha =>
+          simp at h; obtain ⟨rfl, rfl⟩ := h
+          exact ⟨[a, b], by simp, by simp [printLoad, LoadAt.shape, hs, eq_of_beq ha]⟩
+        · simp at h
+    · simp at h
+  · simp at h
+
+/-- **files**: an accepted token list whose result is free of inline function types is, token kind by token kind,
+    the printing of a refined file shape whose erasure is the shape of the result -/
+theorem file_sound (toks : List Token) (file : File) (h : parseFile toks = some file) (hd : file.shape?.isSome = true) :
+    ∃ f : FileShape', toks.map (·.tk) = printFile' f ∧ file.shape? = some f.toOld.erase := by
+  rw [parseFile_eq] at h
+  cases hl : many (8 * toks.length + 16) stopLoads load (8 * toks.length + 16) toks with
+  | none => simp [hl] at h
+  | some x =>
+    obtain ⟨ls, ts1⟩ := x
+    simp only [hl] at h
+    cases hc : many (8 * toks.length + 16) (fun t => t.isEmpty) (content (8 * toks.length + 16)) (8 * toks.length + 16) ts1 with
+    | none => simp [hc] at h
+    | some y =>
+      obtain ⟨cs, ts2⟩ := y
+      simp only [hc] at h
+      split at h
+      · next hemp =>
+        simp only [Option.some.injEq] at h
+        subst h
+        have hts2 : ts2 = [] := by simpa using hemp
+        subst hts2
+        obtain ⟨-, p1, hp1, hp1k⟩ := many_sound _ _ load printLoad LoadAt.shape load_sound _ _ _ _ hl
+        have hd' : (contentsShape? cs).isSome = true := by simpa [File.shape?] using hd
+        obtain ⟨p2, ss, hp2, hp2k, hss⟩ := contents_sound_of _ (content_sound _) _ _ _ _ _ _ hc hd'
+        refine ⟨⟨ls.map LoadAt.shape, ss⟩, ?_, ?_⟩
+        · rw [hp1, hp2]; simp [printFile', hp1k, hp2k]
+        · simp [File.shape?, hss, FileShape'.toOld, FileShape.erase]
+      · simp at h
+
 end Pydjinni.Front
